@@ -5,4 +5,5 @@ CONSTANTS
 INVARIANT Inv_MissingIsolated
 INVARIANT Inv_SupplementalNeverCounted
 INVARIANT Inv_FlowsConserve
+INVARIANT Inv_ConfigReported
 PROPERTY OtherSourcesUntouched
